@@ -9,5 +9,23 @@ package discovery
 //@ func (d *Discovery) GetMembers() []Member
 //@   props C14 C13
 //@   trusted
-//@   ensures #size: len(result) <= 65536 && (cap(result) == 0 || fresh(result))
+//@   ensures #size: len(result) <= 65536 && (cap(result) == 0 || fresh(result)) && off(result) == 0
+//@   ensures #oldest_first [C13]: forall a int, b int :: 0 <= a && a < b && b < len(result) ==> result[a].Birthdate <= result[b].Birthdate
+//@   modifies nothing
+
+// The comparison GetMembers sorts with (its body is checked; GetMembers itself is trusted because the member list
+// comes from hashicorp/memberlist).
+//@ func (d *Discovery) GetMembers$1(i int, j int) bool
+//@   props C13
+//@   flag termination
+//@   requires #idx: 0 <= i && i < len(members) && 0 <= j && j < len(members)
+//@   ensures #less [C13]: result == (members[i].Birthdate < members[j].Birthdate)
+//@   modifies nothing
+
+// The coordinator is the oldest member this member knows of.
+//@ func (d *Discovery) GetCoordinator() Member
+//@   props C13 C16
+//@   flag termination
+//@   requires #wired: d != nil && d.log != nil
+//@   ensures #oldest [C13] internal: len(members) > 0 ==> result == members[0] && forall k int :: 0 <= k && k < len(members) ==> result.Birthdate <= members[k].Birthdate
 //@   modifies nothing
